@@ -312,7 +312,12 @@ def compute_baselines(printers):
             base['bad'][name, j] = (norm(name, frags), type(exc).__name__)
         for kind in SHORTCUTS:
             want = explicit(L, kind, j)
-            got = shortcut(L, kind, j, parse_tree(L, j))
+            try:
+                got = shortcut(L, kind, j, parse_tree(L, j))
+            except Exception as e:
+                # a shortcut that raises where the explicit composition
+                # works is an observation (a violation), not a harness fault
+                got = 'RAISED %s: %s' % (type(e).__name__, e)
             base['short'][kind, j] = (want, got)
     return base
 
